@@ -328,8 +328,15 @@ harness_op(int argc, char **argv)
         beaddr = (unsigned)parse_u64(argv[2]);
         beseed = (unsigned)parse_u64(argv[3]);
         printf("ok");
-    } else if ((strcmp(op, "rp.recv") == 0 && argc == 1) || (strcmp(op, "rp.recvx") == 0 && argc == 2)) {
-        /* rp.recvx <tag>: the generator announces a damaged copy of a valid frame; same call */
+    } else if ((strcmp(op, "rp.recv") == 0 && argc == 1) || (strcmp(op, "rp.recvx") == 0 && argc == 3)) {
+        /* rp.recvx <tag> <hex>: a damaged copy of a valid frame (in its envelope) is fed and received in one
+         * operation; the tag is for the property-level view of the model driver only */
+        if (argc == 3) {
+            size_t n; unsigned char *d = parse_hex(argv[2], &n);
+            if (!d) { printf("bad-op"); return; }
+            for (size_t k = 0; k < n; k++) ev_push(d[k]);
+            free(d);
+        }
         if (mf.frame != NULL) { printf("bad-op"); return; }
         int rc = regp_recv(&p, &mf);
         printf("rc="); print_rc0(rc);
